@@ -238,6 +238,32 @@ impl Monitor for C03 {
                 }
             }
         }
+        // ---- a route that stays in one pool and ends in the denom it started with never returns more
+        // than was offered
+        if let PmMsg::ExecuteSwapOperations { operations, .. } = msg {
+            if let (Some(first), Some(last)) = (operations.first(), operations.last()) {
+                let m = coins_to_map(funds);
+                // (within ONE pool: across pools quoting different prices a cycle is ordinary arbitrage)
+                let one_pool = operations.iter().all(|o| o.get_pool_identifer() == first.get_pool_identifer());
+                if one_pool && first.get_input_asset_info() == &last.get_target_asset_info() {
+                    if let (Some(oa), Some(ret)) = (m.get(first.get_input_asset_info()), out.attr("return_amount").and_then(|v| v.parse::<u128>().ok())) {
+                        c.stats.bump("probe.c03.cyclic_route");
+                        if ret > *oa {
+                            let stable = operations.iter().any(|o| pre.pool(&o.get_pool_identifer()).map(|p| matches!(p.pool_info.pool_type, PoolType::StableSwap { .. })).unwrap_or(false));
+                            let mut v = viol("C03.profitable_cycle", format!("route of {} hops from and back to {} offered {oa} and returned {ret}", operations.len(), first.get_input_asset_info()));
+                            if stable && ret - *oa <= 2 * operations.len() as u128 {
+                                v.finding = Some("S6-stableswap-output-rounding".into());
+                                v.truncate = false;
+                            } else if stable && operations.iter().any(|o| pre.pool(&o.get_pool_identifer()).map(|p| degenerate(&p.pool_info, &reserves_in_denom_order(&p.pool_info))).unwrap_or(false)) {
+                                v.finding = Some("S9-stableswap-skewed-pool-accuracy".into());
+                                v.truncate = false;
+                            }
+                            return Err(v);
+                        }
+                    }
+                }
+            }
+        }
         // ---- round trip: swap the proceeds straight back (fork); never ends with more
         if let PmMsg::Swap { ask_asset_denom, pool_identifier, .. } = msg {
             let m = coins_to_map(funds);
